@@ -1037,6 +1037,11 @@ func (d *Downloader) fetchParts(deliveryCh chan dataPack, deliver func(dataPack)
 				// idle. If the delivery's stale, the peer should have already been idled.
 				if err != errStaleDelivery {
 					setIdle(peer, accepted)
+				} else {
+					// A stale packet has consumed the peer's pending request all the same
+					// (deliver removed it and returned its tasks to the queue), so no expiry
+					// will ever idle this peer again: do it here.
+					setIdle(peer, 0)
 				}
 				// Issue a log to the user to see what's going on
 				switch {
